@@ -364,10 +364,11 @@ start:
 		return
 	}
 
-	// If v.maxVersion(0) is non-negative, then we loaded API
-	// versions. If the version for this request is negative, we
-	// know the broker cannot handle this request.
-	if v.maxVersion(0) >= 0 && v.maxVersion(req.Key()) < 0 {
+	// If the broker advertised any key, then we loaded API versions
+	// (a broker need not list Produce: KRaft controllers do not). If
+	// the version for this request is negative, we know the broker
+	// cannot handle this request.
+	if len(v.maxVers) > 0 && v.maxVersion(req.Key()) < 0 {
 		pr.promise(nil, errBrokerTooOld)
 		return
 	}
